@@ -37,7 +37,7 @@ func rulesC18(c *Ctx) {
 func rulesC19(c *Ctx) {
 	c19Goroutines(c)
 	c19Timers(c)
-	c18MergeContexts(c, map[string]bool{"terminates": true})
+	c18MergeContexts(c, map[string]bool{"terminates": true, "derive": true})
 	c18HTTPAttempt(c, map[string]bool{"cancel-runs": true})
 	c18GRPC(c)
 	c19Responses(c)
@@ -1474,6 +1474,28 @@ func c18EntryPoints(c *Ctx) {
 		}
 		if ok {
 			c.Ok(c.fn(fn), c.P.FuncPos(fn), "wraps the inner round tripper (DefaultTransport if nil) and the executor")
+		}
+	}
+	// Request: the object keeps the caller's request, client and executor themselves (every attempt is cloned from
+	// the caller's request as it is when Do is called — a snapshot taken at construction would send stale headers)
+	if fn := c.P.Func("failsafehttp.NewRequestWithExecutor"); fn == nil {
+		c.Unresolved("failsafehttp.NewRequestWithExecutor", "not found")
+	} else if len(fn.Params) >= 3 {
+		ev := NewEvaluator(c.P, EvalConfig{})
+		ok := true
+		req, client, ex := ev.Param(fn, fn.Params[0].Name()), ev.Param(fn, fn.Params[1].Name()), ev.Param(fn, fn.Params[2].Name())
+		for _, p := range ev.Run(fn) {
+			if p.Exit != ExitReturn || len(p.Rets) != 1 {
+				continue
+			}
+			r := p.Rets[0]
+			if !(r.Op == "alloc" || (r.Op == "faddr" && isFreshRoot(r))) || ev.LoadField(p.State, r, "request") != req || ev.LoadField(p.State, r, "client") != client || ev.LoadField(p.State, r, "executor") != ex || len(impure(p)) != 0 {
+				ok = false
+				c.Fail(c.fn(fn), c.P.FuncPos(fn), "the Request must keep the caller's request, client and executor as given (no copy of the request taken at construction: attempts are cloned from the request as it is when Do is called)", pathTrace(ev, p))
+			}
+		}
+		if ok {
+			c.Ok(c.fn(fn), c.P.FuncPos(fn), "keeps the request, the client and the executor as given")
 		}
 	}
 }
